@@ -6,8 +6,9 @@
 
    The model follows the control flow of the code: counters gpz_pos / vec_pos / stack_offset, look-ups into the passed-order
    arrays with the kMaxRegArgsPerGroup (16) bound, the 0xFF "no register" sentinel.
-   The Win64/vectorcall indirect branch models the REPAIRED code (fixes/C06-win64-oob.patch: the GP order look-up is guarded
-   by arg_index < 16 like its three siblings). *)
+   The Win64/vectorcall branch models the REPAIRED code: the GP order look-up of by-reference vectors is guarded by
+   arg_index < 16 (fix ab5871c) and stack arguments live in their positional home slots with a 32-byte home area
+   (fixes/C06-win64-home-slots.patch). *)
 From Coq Require Import ZArith List Bool.
 Import ListNotations.
 Local Open Scope Z_scope.
@@ -123,7 +124,7 @@ Definition x86_init_call_conv (e : env) (id : Z) : callconv + Z :=
       inl (mkCC a 33 1 0 32 16 (Z.lor F_FloatsByVec (Z.lor F_IndirectVec (Z.lor F_MmxByGp F_VarArgCompat)))
              [1;2;8;9] [0;1;2;3] [] [] winpres srs sra)
     else if id =? 3 then
-      inl (mkCC a 3 2 0 48 16 (Z.lor F_FloatsByVec F_MmxByGp)
+      inl (mkCC a 3 2 0 32 16 (Z.lor F_FloatsByVec F_MmxByGp)
              [1;2;8;9] [0;1;2;3;4;5] [] [] winpres srs sra)
     else if between id 16 18 then
       let n := id - 16 + 2 in
@@ -238,28 +239,29 @@ Fixpoint x86_default_args (c : callconv) (va : bool) (s : xst) (ts : list Z) : l
   end.
 
 (* ------------------------------------------------------------------ x86 arguments, Win64 / vectorcall strategy *)
-Definition win64_value (c : callconv) (i off t : Z) : fval * Z :=
+(* models the REPAIRED code (fixes/C06-win64-home-slots.patch): an argument that is not passed in a register lives in its
+   positional home slot arg_index * 8; the stack argument area is max(arg_count, 4) * 8 bytes *)
+Definition win64_value (c : callconv) (i t : Z) : fval :=
   let vcall := cc_strategy c =? 2 in
   let size := size_of t in
+  let off := 8 * i in
   if ty_is_int t || ty_is_mmx t then
     let r := order_at (cc_ogp c) i in
-    if negb (r =? 255) then (fv_reg t (if (size <=? 4) && negb (ty_is_mmx t) then RT_Gp32 else RT_Gp64) r, off)
-    else (fv_stack t off, off + 8)
+    if negb (r =? 255) then fv_reg t (if (size <=? 4) && negb (ty_is_mmx t) then RT_Gp32 else RT_Gp64) r
+    else fv_stack t off
   else if ty_is_float t || ty_is_vec t then
     let r := order_at (cc_ovec c) i in
-    if negb (r =? 255) && (ty_is_float t || vcall) then (fv_reg t (x86_vec_regtype t) r, off)
-    else if ty_is_float t then (fv_stack t off, off + 8)
+    if negb (r =? 255) && (ty_is_float t || vcall) then fv_reg t (x86_vec_regtype t) r
+    else if ty_is_float t then fv_stack t off
     else
-      let g := order_at (cc_ogp c) i in     (* repaired: bounded by kMaxRegArgsPerGroup like the other look-ups *)
-      if negb (g =? 255) then (fv_reg_ind t RT_Gp64 g, off + 8) else (fv_stack_ind t off, off + 8)
-  else (fv_type_only t, off).
+      let g := order_at (cc_ogp c) i in     (* bounded by kMaxRegArgsPerGroup like the other look-ups *)
+      if negb (g =? 255) then fv_reg_ind t RT_Gp64 g else fv_stack_ind t off
+  else fv_type_only t.
 
-Fixpoint win64_args (c : callconv) (i off : Z) (ts : list Z) : list (list fval) * Z :=
+Fixpoint win64_args (c : callconv) (i : Z) (ts : list Z) : list (list fval) :=
   match ts with
-  | [] => ([], off)
-  | t :: r =>
-      let '(p, off1) := if t =? 0 then ([], off) else let '(v, o) := win64_value c i off t in ([v], o) in
-      let '(ps, off2) := win64_args c (i + 1) off1 r in (p :: ps, off2)
+  | [] => []
+  | t :: r => (if t =? 0 then [] else [win64_value c i t]) :: win64_args c (i + 1) r
   end.
 
 Definition x86_init_func_detail (c : callconv) (s : sig) (ret : Z) (args : list Z) : result :=
@@ -267,7 +269,7 @@ Definition x86_init_func_detail (c : callconv) (s : sig) (ret : Z) (args : list 
   | inr e => R_err e
   | inl rets =>
       if (cc_strategy c =? 1) || (cc_strategy c =? 2) then
-        let '(ps, off) := win64_args c 0 (cc_spill c) args in R_ok (mkFD c rets ps off)
+        R_ok (mkFD c rets (win64_args c 0 args) (8 * Z.max (Z.of_nat (length args)) 4))
       else
         let '(ps, st) := x86_default_args c (sig_has_va s) (mkXst 0 0 (cc_spill c)) args in R_ok (mkFD c rets ps (x_off st))
   end.
